@@ -427,7 +427,13 @@ func bmpPeerDown(ev *watchEventPeer, t uint8, policy bool, pd uint64) *bmp.BMPMe
 	case fsmDying, fsmInvalidMsg, fsmNotificationSent, fsmHoldTimerExpired, fsmIdleTimerExpired, fsmRestartTimerExpired:
 		reasonCode = bmp.BMP_PEER_DOWN_REASON_LOCAL_BGP_NOTIFICATION
 	case fsmAdminDown:
-		reasonCode = bmp.BMP_PEER_DOWN_REASON_LOCAL_NO_NOTIFICATION
+		// RFC 7854 4.9: reason 1 when a NOTIFICATION was sent (it follows the
+		// reason), reason 2 only when the session was closed without one
+		if ev.StateReason.BGPNotification != nil {
+			reasonCode = bmp.BMP_PEER_DOWN_REASON_LOCAL_BGP_NOTIFICATION
+		} else {
+			reasonCode = bmp.BMP_PEER_DOWN_REASON_LOCAL_NO_NOTIFICATION
+		}
 	case fsmNotificationRecv, fsmGracefulRestart, fsmHardReset:
 		reasonCode = bmp.BMP_PEER_DOWN_REASON_REMOTE_BGP_NOTIFICATION
 	case fsmReadFailed, fsmWriteFailed:
